@@ -142,7 +142,8 @@ def count_obligations(pid):
     props_src = open(os.path.join(COQ, f"theories/Props/{pid}.v")).read()
     # files that instantiate generic lemmas on the regenerated tables (they hold the data obligations)
     for rel, tag in ((f"theories/Props/{pid}.v", None), ("theories/Proofs/GenObligations.v", "GenObligations"),
-                     ("theories/Proofs/GenerateFacts.v", "GenerateFacts"), ("theories/Proofs/RandomGen.v", "RandomGen")):
+                     ("theories/Proofs/GenerateFacts.v", "GenerateFacts"), ("theories/Proofs/RandomGen.v", "RandomGen"),
+                     ("theories/Proofs/GenerateTotal.v", "GenerateTotal")):
         p = os.path.join(COQ, rel)
         if not os.path.exists(p):
             continue
